@@ -59,13 +59,36 @@ def run(rep, tier, seed):
         op = rnd.choice(ops)
         items.append({"id": base + i, "prog": [OBS_DECL, obs(bin_(op, a, b))], "op": op, "ta": ka + ":rand",
                       "tb": kb + ":rand"})
+    # operands held in variables: the same value on both sides (x op x), an operand stored in an array slot, passed
+    # as an argument - an operator must see values, not where they live
+    from ..past import let, ident, idx, arr, call, fndef, expr
+    seen_operands = {}
+    for c in cases:
+        e = c["e"]
+        if e.get("t") == "bin":
+            seen_operands.setdefault(c["ta"], e["l"])
+            seen_operands.setdefault(c["tb"], e["r"])
+    k = 2000000
+    for tag, operand in sorted(seen_operands.items()):
+        for op in ops:
+            if op == "*" and tag.startswith("str"):
+                continue
+            progs_ = [
+                ("self-variable", [OBS_DECL, let("n", operand), obs(bin_(op, ident("n"), ident("n")))]),
+                ("self-array-slot", [OBS_DECL, let("a", arr(operand)), obs(bin_(op, idx(ident("a"), lit(vint(0))), idx(ident("a"), lit(vint(0)))))]),
+                ("self-argument", [OBS_DECL, fndef("f", ["x"], [expr(bin_(op, ident("x"), ident("x")))]), let("n", operand), obs(call("f", ident("n")))]),
+            ]
+            for how, prog in progs_:
+                items.append({"id": k, "prog": prog, "op": op, "ta": tag + ":" + how, "tb": tag + ":same"})
+                k += 1
     bad, verdicts = progs.run_and_validate(rep, items, chk=())
     distinct = set()
     for it in items:
         distinct.add((it["op"], it["ta"], it["tb"]))
     rep.cov["distinct_nontrivial"] = len(distinct)
     rep.cov["rule"] = ("cases = operator x ordered operand pair from the boundary table enumerated by TLC "
-                       "(spec/GenOps.tla) plus seeded random numeric operand pairs; distinct = distinct "
+                       "(spec/GenOps.tla) plus seeded random numeric operand pairs plus every operator applied to one stored "
+                       "value on both sides (variable, array slot, argument); distinct = distinct "
                        "(operator, operand tag, operand tag) triples; every case has an operator application, "
                        "so all are non-trivial")
     rep.cov["exhaustive"] = False
